@@ -30,4 +30,4 @@ Separate Extraction
   SpecDecoder.spec_decode
   StackProto.trace_of
   StackTrace.c04_ok StackTrace.c05_ok StackTrace.c06_ok StackTrace.c08_ok StackTrace.c09_ok StackTrace.c09_ok_gc StackTrace.c10_ok StackTrace.c16_ok
-  Reader.rd_open Reader.scan_refs Reader.scan_logs Reader.seek_ref Reader.seek_log Reader.refs_for.
+  Reader.rd_open Reader.scan_refs Reader.scan_logs Reader.seek_ref Reader.seek_log Reader.refs_for Reader.read_ref Reader.read_log_at.
